@@ -15,6 +15,7 @@ def run(tier, rep):
     dbd = [(3, 'Mo100 2 1'), (3, 'Ge76 2 1'), (3, 'Nd150 2 1'), (3, 'Mo100 0 1'), (3, 'Bi214 0 1'), (3, 'Pb214 0 1'), (3, 'Po218 0 1'), (3, 'Rn222 0 1'),
            (3, 'Zr96 0 20'), (3, 'Cd106 0 9'), (3, 'Cd106 0 11'), (3, 'Mo100 0 21'), (2, 'Mo100 0 4 0.5 1.5'), (2, 'Mo100 1 8'), (2, 'Cd106 0 10 0.25 0.75'),
            (2, 'Se82 0 5'), (2, 'Nd150 0 15'), (2, 'Mo100 0 18'), (2, 'Xe136 0 19'), (2, 'Ca48 0 13')]
+    lines += ['%d bkg Co60 0 0 -1 -1 MDL' % dB, '%d bkg Cs137+Ba137m 0 0 -1 -1 MDL' % dB, '3 dbd Mo100 0 1 -1 -1 MDL']
     for dep, c in dbd:
         lines.append('%d dbd %s' % (dep if q else dep + 1, c))
     if not q:
